@@ -300,6 +300,11 @@ def client_kwargs(cfg, world):
     elif c["serde"] >= 2:       # CompressedSerde around PickleSerde with the identity codec, min_compress_len = code - 2
         kw["serde"] = serde.CompressedSerde(compress=lambda b: b, decompress=lambda b: b, min_compress_len=c["serde"] - 2)
     server = ("mc.example", 11211) if c["tcp"] else "/tmp/mc.sock"
+    if c.get("legacy"):                 # the older spelling of a serializer: one or both of two plain functions
+        if "ser" in c["legacy"]:
+            kw["serializer"] = lambda key, value: (value[::-1], 9) if isinstance(value, bytes) else (repr(value).encode(), 11)
+        if "de" in c["legacy"]:
+            kw["deserializer"] = lambda key, value, flags: ("decoded", value, flags)
     for name in c.get("omit", ()):      # options the constructor is NOT told: the class's own default applies (the cfg holds the documented one)
         kw.pop(name, None)
     return server, kw
